@@ -280,6 +280,9 @@ func checkC13(a *checkArgs, r *Result) error {
 	if err := lazy2Tie(r, dp, rand.New(rand.NewSource(a.seed+14)), nlazy); err != nil {
 		return err
 	}
+	if err := lazyXzTie(r, dp, rand.New(rand.NewSource(a.seed+15)), nlazy); err != nil {
+		return err
+	}
 	return nil
 }
 
